@@ -1,4 +1,4 @@
 ------------------------------ MODULE MiniPyEmit ------------------------------
 EXTENDS MiniPy, Json
-EmitDone == done = "done" => PrintT(ToJson([tx |-> tx, ty |-> ty, prog |-> Prog, argsx |-> ArgsFor(tx), argsy |-> ArgsFor(ty)]))
+EmitDone == done = "done" => PrintT(ToJson([tx |-> tx, ty |-> ty, prog |-> Prog, argsx |-> ArgsTable[tx], argsy |-> ArgsTable[ty]]))
 =============================================================================
